@@ -211,13 +211,16 @@ def c18_cases(ctx, binary, root, rnd, n, use_strace=False):
         other = os.path.join(d, "elsewhere")
         os.makedirs(other)
         open(os.path.join(other, "keep.txt"), "w").write("untouched\n")
-        mode = ["cwd_parent_default", "cwd_outside_path", "cwd_is_analysed_dir", "cwd_inside_subdir", "cwd_outside_toml_path"][k % 5]
+        mode = ["cwd_parent_default", "cwd_outside_path", "cwd_is_analysed_dir", "cwd_inside_subdir", "cwd_outside_toml_path", "cwd_without_contracts"][k % 6]
         if mode == "cwd_parent_default":
             cwd, args = proj, []
         elif mode == "cwd_outside_path":
             cwd, args = other, ["--path", os.path.join(proj, "contracts")]
         elif mode == "cwd_is_analysed_dir":
             cwd, args = os.path.join(proj, "contracts"), ["--path", "."]
+        elif mode == "cwd_without_contracts":
+            # nothing says which directory to analyse and there is no ./contracts here: the run must fail and touch nothing
+            cwd, args = other, []
         elif mode == "cwd_outside_toml_path":
             # the analysed directory comes from a configuration file that lies somewhere else again
             cfgdir = os.path.join(d, "conf")
@@ -268,10 +271,18 @@ def c18_cases(ctx, binary, root, rnd, n, use_strace=False):
         changed = {p for p in set(before) | set(after) if before.get(p) != after.get(p)}
         if changed - {rel_report}:
             problems.append(f"paths changed besides the report: {sorted(changed - {rel_report})[:5]}")
-        if rel_report not in after:
-            problems.append("no report written")
-        if any(c != 0 for c, _ in reports):
-            problems.append(f"exit codes {[c for c, _ in reports]}")
+        if mode == "cwd_without_contracts":
+            if any(c == 0 for c, _ in reports):
+                problems.append("no directory to analyse, yet the run succeeds")
+            if changed - ({rel_report} if stale else set()):
+                problems.append(f"a failing run changed the file system: {sorted(changed)[:5]}")
+            if stale and before.get(rel_report) != after.get(rel_report):
+                problems.append("a failing run rewrote the old report")
+        else:
+            if rel_report not in after:
+                problems.append("no report written")
+            if any(c != 0 for c, _ in reports):
+                problems.append(f"exit codes {[c for c, _ in reports]}")
         if len({hashlib.sha1(r or b'').hexdigest() for _, r in reports}) != 1:
             # is it the previous report, or does the binary render differently from run to run anyway (C13's business)?
             fresh = []
@@ -283,7 +294,7 @@ def c18_cases(ctx, binary, root, rnd, n, use_strace=False):
             seen_fresh = {hashlib.sha1(r or b'').hexdigest() for r in fresh}
             if not {hashlib.sha1(r or b'').hexdigest() for _, r in reports} <= seen_fresh:
                 problems.append("repeated runs produce different reports (a previous report influences the next, or appended)")
-        if reports[0][1] is not None and b"STALE REPORT" in reports[0][1]:
+        if mode != "cwd_without_contracts" and reports[0][1] is not None and b"STALE REPORT" in reports[0][1]:
             problems.append("the previous report's content survives (appended, not overwritten)")
         if writes is not None and writes - {os.path.normpath(os.path.join(cwd, "solstat_report.md"))}:
             extra_w = sorted(w for w in writes - {os.path.normpath(os.path.join(cwd, "solstat_report.md"))} if not w.startswith("/dev/") and not w.startswith("/proc/"))
